@@ -42,7 +42,7 @@ template <class T> static void run_T(Choice &c, Ctx &cx)
     std::vector<std::vector<int>> pat;
     if (m >= n) pat = gen_pattern(c, m, n, PAT_ANY, family);
     else { auto pt = gen_pattern(c, n, m, PAT_ANY, family); pat.assign(n, {}); for (int j = 0; j < m; ++j) for (int i : pt[j]) pat[i].push_back(j); family += "(wide)"; }
-    Comp<T> S; S.m = m; S.n = n; S.byrow = false; S.ptr.assign(n + 1, 0);
+    Comp<T> S; S.m = m; S.n = n; S.byrow = false; S.ptr.assign(n + 1, 0); S.idx.reserve(8); S.val.reserve(8);
     bool extreme = c.chance(170);
     GMat G; if (!extreme) G = gen_values(c, m, n, pat, cplx, sizeof(R) == 4, family);
     for (int j = 0; j < n; ++j) {
